@@ -263,4 +263,4 @@ PROPS["C15"] = {
 }
 
 NOT_APPLICABLE = {}
-HOOK_COMMITS = ["ca43a57", "6332ff2", "5dd13bc", "f3d1cc5"]
+HOOK_COMMITS = ["ca43a57", "6332ff2", "5dd13bc", "f3d1cc5", "18bdadf"]
